@@ -224,7 +224,7 @@ def dag_spec(draw, *, min_nodes: int = 1, max_nodes: int = 8, types=None, fail_m
              backends=('controlled',), max_workers=(1, 2, 3, None), dup_bias: bool = False,
              allow_fresh_same_parent: bool = True, pre_cache: bool = True, bust: bool = True,
              continue_on_failure=(True,), noread_rate: int = 0, wide: bool = False, contexts: bool = True,
-             schedule_len: int = 40, max_refs: int = 4, storages=('local',), req_many: bool = False):
+             schedule_len: int = 40, max_refs: int = 4, storages=('local',), req_many: bool = False, corrupt_rate: int = 0):
     types = list(types or DEFAULT_TYPES)
     n = draw(st.integers(min_nodes, max_nodes))
     nodes = []
@@ -278,7 +278,10 @@ def dag_spec(draw, *, min_nodes: int = 1, max_nodes: int = 8, types=None, fail_m
     if pre_cache:
         pre = sorted(set(draw(st.lists(st.integers(0, n - 1), max_size=n))))
     schedule = draw(st.lists(st.integers(0, 7), max_size=schedule_len))
-    return {'nodes': nodes, 'requested': req, 'lab': lab, 'pre_cached': pre, 'schedule': schedule}
+    out = {'nodes': nodes, 'requested': req, 'lab': lab, 'pre_cached': pre, 'schedule': schedule}
+    if corrupt_rate and pre and draw(st.integers(0, 99)) < corrupt_rate:
+        out['pre_corrupt'] = sorted(set(draw(st.lists(st.sampled_from(pre), min_size=1, max_size=2))))
+    return out
 
 
 @st.composite
